@@ -11,7 +11,7 @@
 
    observed.ndjson, many scripts per file:
      {"ev":"reset","sid":s,"cfg":{queue,batch,min,max,timeout(us),retry,enq}}
-     {"ev":"send","r":r,"t":us,"D":us|-1,"a":{n,sc,dl,cancel}}      just before ConsumeLogs
+     {"ev":"send","r":r,"t":us,"D":us|-1,"a":{n,sc,up,dl,cancel}}   just before ConsumeLogs
      {"ev":"sent","r":r,"t":us,"res":..}                            ConsumeLogs returned
      {"ev":"cancel","r":r,"t":us}                                   just before the producer's cancel()
      {"ev":"exp","call":k,"c":{items,parent,links,sl,hasdl,d,e,x,err,out}}   export function entered
